@@ -8,8 +8,25 @@ import (
 	"fmt"
 	"os"
 	"sort"
+	"strconv"
 	"strings"
+	"sync/atomic"
+	"time"
 )
+
+// unitDeadlineS is the wall-clock watchdog for ONE work unit (units normally take milliseconds
+// to a few seconds); firing is not a verdict by itself: the driver re-runs the unit alone.
+func unitDeadlineS(tier string) int {
+	if v := os.Getenv("VERIF_UNIT_DEADLINE_S"); v != "" {
+		if n, err := strconv.Atoi(v); err == nil {
+			return n
+		}
+	}
+	if tier == "thorough" {
+		return 600
+	}
+	return 90
+}
 
 // Prop describes one property check.
 type Prop struct {
@@ -202,8 +219,27 @@ func RunWorker(id, tier string, seed uint64, lo, hi int, out string) error {
 		return fmt.Errorf("unknown property %s", id)
 	}
 	c := newCtx(p, tier, seed)
+	// progress + per-unit watchdog: the driver learns which unit was running when the worker
+	// died or hung, and a hanging unit ends the worker long before the chunk deadline.
+	var cur, started atomic.Int64
+	cur.Store(int64(lo))
+	started.Store(time.Now().UnixNano())
+	deadline := time.Duration(unitDeadlineS(tier)) * time.Second
+	go func() {
+		for {
+			time.Sleep(500 * time.Millisecond)
+			if time.Duration(time.Now().UnixNano()-started.Load()) > deadline {
+				os.WriteFile(out+".progress", []byte(fmt.Sprintf("%d hung", cur.Load())), 0o644)
+				fmt.Fprintf(os.Stderr, "watchdog: unit %d exceeded %v\n", cur.Load(), deadline)
+				os.Exit(97)
+			}
+		}
+	}()
 	for i := lo; i < hi; i++ {
 		c.Unit = i
+		cur.Store(int64(i))
+		started.Store(time.Now().UnixNano())
+		os.WriteFile(out+".progress", []byte(fmt.Sprintf("%d running", i)), 0o644)
 		p.Run(c, i)
 		if len(c.viol) > 200 {
 			break
